@@ -42,7 +42,11 @@ def read_nifti_image(path: PathUri) -> Tuple[Tensor, Grid]:
     # Image sampling grid attributes
     dim = np.asarray(image.header["dim"])
     ndim = int(dim[0])
+    # Number of spatial dimensions: trailing singleton dimensions of vector-valued images are not spatial
     D = min(ndim, 3)
+    if int(image.header["intent_code"]) in (1005, 1006, 1007):
+        while D > 1 and dim[D] == 1:
+            D -= 1
     size = dim[1 : D + 1]
     spacing = np.asarray(image.header["pixdim"][1 : D + 1])
     affine = np.asarray(image.affine)
@@ -81,7 +85,7 @@ def read_nifti_image(path: PathUri) -> Tuple[Tensor, Grid]:
         realdim = ndim
         while realdim > 3 and dim[realdim] == 1:
             realdim -= 1
-    data = np.reshape(data, data.shape[:realdim] + data.shape[5:])
+    data = np.reshape(data, data.shape[:realdim] + data.shape[4:])
     # Reverse order of axes
     data = np.transpose(data, axes=tuple(reversed(range(data.ndim))))
     # Add leading channel dimension
